@@ -1,17 +1,21 @@
 (* Properties/C10.v — weighted routines reduce to binary ones on 0/1 input, directed ones to undirected
-   ones on symmetric input.  PROVED here: the pairs among the models of Model/Clustering.v
-   (the clustering_coef, transitivity, degrees and strengths families).  The pairs distance_wei/bin,
-   betweenness_wei/bin, edge_betweenness_wei/bin, efficiency_wei/bin, assortativity_wei/bin and the
-   "ignores weights" routines other than the degrees family are covered by the differential harness only
-   (harness/c10.py): tested, not proved.
-   Only statements; every proof is `exact <lemma of Proofs/ClusteringReduce.v>`.
+   ones on symmetric input, routines documented to ignore weights return the same on W and binarize(W).
+   PROVED here, between executable models each tied to the code by correspondence:
+   clustering_coef / transitivity / degrees / strengths (Model/Clustering.v), distance_wei/distance_bin and
+   efficiency_wei/efficiency_bin global (Model/Distance.v, C03's models) and local (Model/EfficiencyLocal.v),
+   assortativity_wei/assortativity_bin (Model/Assortativity.v), and the "ignores weights" clause for degrees_*,
+   assortativity_bin, density_*, jdegree, edge_nei_overlap_* (Model/IgnoreWeights.v), findwalks, reachdist,
+   distance_bin, efficiency_bin.  NOT proved here: betweenness_wei/bin and edge_betweenness_wei/bin
+   (models belong to C08; differential test only, harness/c10.py); findpaths raises on every call.
+   Only statements; every proof is `exact <lemma of Proofs/ClusteringReduce.v / Proofs/Reduce*.v>`.
    [cbrt] is any function returning a cube root of the matrix entries (cbrt_ok); the extracted model's
    cbrt_exact meets this on every 0/1 matrix (C10_cbrt_exact_ok_binary). *)
 From Coq Require Import QArith Qabs List Arith Bool ZArith Lia.
 From BCT Require Import Base.Mat Base.SumQ Model.Threshold Model.Clustering
   Proofs.ClusteringSpec Proofs.Clustering Proofs.ClusteringReduce.
-From BCT Require Model.Distance Model.EfficiencyLocal Model.Assortativity Proofs.DistanceBase
-  Proofs.ReduceDistance Proofs.ReduceEfficiencyLocal Proofs.ReduceAssortativity.
+From BCT Require Model.Distance Model.EfficiencyLocal Model.Assortativity Model.IgnoreWeights Model.Walks
+  Proofs.DistanceBase Proofs.ReduceDistance Proofs.ReduceEfficiencyLocal Proofs.ReduceAssortativity
+  Proofs.ReduceTotal Proofs.ReduceIgnore.
 Import ListNotations.
 Open Scope Q_scope.
 
@@ -65,37 +69,38 @@ Proof. exact degrees_ignore_weights. Qed.
 (* ---- distance.py / efficiency.py: weighted = binary on 0/1 input ----
    [rel01 n A W]: A (integer entries, input of the binary routines' models) and W (rational entries, input of
    the weighted routines' models) are the same 0/1 matrix.  The models are those of Model/Distance.v (tied to
-   the code by C03) and Model/EfficiencyLocal.v; their loops carry fuel n+2, a run that exhausts it returns
-   None, hence "if both return".  Lengths are option Q (None = inf), [DistanceBase.oeq] = inf with inf,
-   finite values equal; diagonal included. *)
-Import Model.Distance Model.EfficiencyLocal Model.Assortativity.
-Import Proofs.ReduceDistance Proofs.ReduceEfficiencyLocal Proofs.ReduceAssortativity.
+   the code by C03) and Model/EfficiencyLocal.v.  Their fuelled loops always return (totality, C03), so the
+   statements are unconditional: both routines return and the results agree.  Lengths are option Q
+   (None = inf), [DistanceBase.oeq] = inf with inf, finite values equal; diagonal included. *)
+Import Model.Distance Model.EfficiencyLocal Model.Assortativity Model.IgnoreWeights.
+Import Proofs.ReduceDistance Proofs.ReduceEfficiencyLocal Proofs.ReduceAssortativity Proofs.ReduceTotal Proofs.ReduceIgnore.
 
-Theorem C10_distance_wei_bin_eq_bin : forall n A W D B D',
-  rel01 n A W -> distance_wei n W = Some (D, B) -> distance_bin n A = Some D' ->
-  forall i j, (i < n)%nat -> (j < n)%nat ->
-    DistanceBase.oeq (D i j) (olen_of_nat (D' i j)) /\        (* the distance matrices agree entrywise *)
-    (forall k, D' i j = Some k -> B i j = k).                 (* and so does the hop-count matrix where finite *)
-Proof. exact distance_wei_bin_eq_bin. Qed.
+Theorem C10_distance_wei_bin_eq_bin : forall n A W, rel01 n A W ->
+  exists D B D', distance_wei n W = Some (D, B) /\ distance_bin n A = Some D' /\
+    forall i j, (i < n)%nat -> (j < n)%nat ->
+      DistanceBase.oeq (D i j) (olen_of_nat (D' i j)) /\      (* the distance matrices agree entrywise *)
+      (forall k, D' i j = Some k -> B i j = k).               (* and so does the hop-count matrix where finite *)
+Proof. exact distance_wei_bin_total. Qed.
 
-Theorem C10_efficiency_wei_bin_eq_bin : forall n A W ew eb,
-  rel01 n A W -> efficiency_wei n W = Some ew -> efficiency_bin n A = Some eb -> ext_eq ew eb.
-Proof. exact efficiency_wei_bin_eq_bin. Qed.
+(* global efficiency: nan = nan (n < 2), finite values equal *)
+Theorem C10_efficiency_wei_bin_eq_bin : forall n A W, rel01 n A W ->
+  exists ew eb, efficiency_wei n W = Some ew /\ efficiency_bin n A = Some eb /\ ext_eq ew eb.
+Proof. exact efficiency_wei_bin_total. Qed.
 
-(* local=True: per node and for the returned vectors.  cuberoot is any function that is a cube root of the
-   entries of W and of invert(W) (cbrt_ok); the executable cbrt_exact is one on every 0/1 matrix. *)
-Theorem C10_efficiency_local_wei_bin_eq_bin : forall cbrt n A W lw lb,
+(* local=True: the returned vectors.  cuberoot is any function that is a cube root of the entries of W and of
+   invert(W) (cbrt_ok); the executable cbrt_exact is one on every 0/1 matrix (second theorem). *)
+Theorem C10_efficiency_local_wei_bin_eq_bin : forall cbrt n A W,
   rel01 n A W -> cbrt_ok cbrt n W -> cbrt_ok cbrt n (invertQ W) ->
-  efficiency_wei_local cbrt n W = Some lw -> efficiency_bin_local n A = Some lb ->
-  forall u, (u < n)%nat -> nth u lw 0 == nth u lb 0.
-Proof. exact efficiency_local_wei_bin_eq_bin. Qed.
+  exists lw lb, efficiency_wei_local cbrt n W = Some lw /\ efficiency_bin_local n A = Some lb /\
+    length lw = n /\ length lb = n /\ forall u, (u < n)%nat -> nth u lw 0 == nth u lb 0.
+Proof. exact efficiency_local_wei_bin_total. Qed.
 
-Theorem C10_efficiency_local_cbrt_exact : forall n A W lw lb,
-  rel01 n A W -> efficiency_wei_local cbrt_exact n W = Some lw -> efficiency_bin_local n A = Some lb ->
-  forall u, (u < n)%nat -> nth u lw 0 == nth u lb 0.
+Theorem C10_efficiency_local_cbrt_exact : forall n A W, rel01 n A W ->
+  exists lw lb, efficiency_wei_local cbrt_exact n W = Some lw /\ efficiency_bin_local n A = Some lb /\
+    length lw = n /\ length lb = n /\ forall u, (u < n)%nat -> nth u lw 0 == nth u lb 0.
 Proof.
-  intros n A W lw lb H. destruct (rel01_binary n A W H) as [H1 H2].
-  exact (efficiency_local_wei_bin_eq_bin cbrt_exact n A W lw lb H (cbrt_exact_ok_binary n W H1) (cbrt_exact_ok_binary n _ H2)).
+  intros n A W H. destruct (rel01_binary n A W H) as [H1 H2].
+  exact (efficiency_local_wei_bin_total cbrt_exact n A W H (cbrt_exact_ok_binary n W H1) (cbrt_exact_ok_binary n _ H2)).
 Qed.
 
 (* ---- core.py: assortativity_wei = assortativity_bin on 0/1 input, every flag (0 = undirected) ----
@@ -104,10 +109,50 @@ Theorem C10_assortativity_wei_bin_eq_bin : forall n A flag, binary n A ->
   oeq (assortativity_wei n A flag) (assortativity_bin n A flag).
 Proof. exact assortativity_wei_bin_eq_bin. Qed.
 
-(* documented "all connection weights are ignored" (the edge list is `CIJ > 0`: non-negative weights) *)
-Theorem C10_assortativity_bin_ignores_weights : forall n W flag, nonnegm n W ->
+(* documented "all connection weights are ignored": TRUE for non-negative weights ... *)
+Theorem C10_assortativity_bin_ignores_nonneg_weights : forall n W flag, nonnegm n W ->
   oeq (assortativity_bin n W flag) (assortativity_bin n (binarize W) flag).
 Proof. exact assortativity_bin_ignores_weights. Qed.
+
+(* ... and FALSE in general: the edge list is `np.where(np.triu(CIJ, 1) > 0)` / `np.where(CIJ > 0)` while the degrees
+   count every nonzero entry, so a negative weight changes the result.  Witness (symmetric, empty diagonal):
+   W = [[0,-2,1,0],[-2,0,1,0],[1,1,0,1],[0,0,1,0]], flag 0: -4/5 on W, -5/7 on binarize(W).  Replayed on the
+   implementation by harness/c10.py (known finding assortativity_bin:ignores_weights_negative). *)
+Definition C10_assortativity_bin_ignores_weights_full_statement : Prop :=
+  forall n W flag, oeq (assortativity_bin n W flag) (assortativity_bin n (binarize W) flag).
+Theorem C10_assortativity_bin_ignores_weights_refuted : ~ C10_assortativity_bin_ignores_weights_full_statement.
+Proof. exact assortativity_bin_ignores_weights_refuted. Qed.
+
+(* ---- the other routines documented "weights are ignored / discarded": f(W) = f(binarize(W)) ----
+   (degrees_und/degrees_dir: C10_degrees_ignore_weights above; findpaths raises on every call: known finding) *)
+Theorem C10_density_ignores_weights : forall n W,
+  density_dir n (binarize W) = density_dir n W /\ density_und n (binarize W) = density_und n W.
+Proof. intros n W. exact (conj (density_dir_ignores_weights n W) (density_und_ignores_weights n W)). Qed.
+
+Theorem C10_jdegree_ignores_weights : forall n W,
+  let r := jdegree n W in let r' := jdegree n (binarize W) in
+  j_sz r = j_sz r' /\ (forall a b, j_J r a b = j_J r' a b) /\ j_od r = j_od r' /\ j_id r = j_id r' /\ j_bl r = j_bl r'.
+Proof. exact jdegree_ignores_weights. Qed.
+
+(* [enov_eq]: both raise (ZeroDivisionError) or both return the same edges in the same order with equal
+   overlaps and equal degree pairs *)
+Theorem C10_edge_nei_overlap_ignores_weights : forall n W,
+  enov_eq (edge_nei_overlap_bd n W) (edge_nei_overlap_bd n (binarize W)) /\
+  enov_eq (edge_nei_overlap_bu n W) (edge_nei_overlap_bu n (binarize W)).
+Proof. intros n W. exact (conj (edge_nei_overlap_bd_ignores_weights n W) (edge_nei_overlap_bu_ignores_weights n W)). Qed.
+
+(* the integer-input models of findwalks (C18), reachdist, distance_bin, efficiency_bin (C03): equal results,
+   Leibniz equality of the whole return value *)
+Theorem C10_findwalks_reachdist_ignore_weights : forall n A,
+  Walks.findwalks n (Walks.binz A) = Walks.findwalks n A /\ reachdist n (bin A) = reachdist n A.
+Proof. intros n A. exact (conj (findwalks_ignores_weights n A) (reachdist_ignores_weights n A)). Qed.
+
+Theorem C10_distance_efficiency_bin_ignore_weights : forall n A,
+  distance_bin n (bin A) = distance_bin n A /\ efficiency_bin n (bin A) = efficiency_bin n A /\
+  efficiency_bin_local n (bin A) = efficiency_bin_local n A.
+Proof.
+  intros n A. exact (conj (distance_bin_ignores_weights n A) (efficiency_bin_ignores_weights n A)).
+Qed.
 
 (* ---- non-vacuity ---- *)
 Example C10_nonvacuous :
@@ -162,6 +207,19 @@ Proof.
   repeat split; eexists; (split; [vm_compute; reflexivity|vm_compute; reflexivity]).
 Qed.
 
+(* a weighted directed matrix and a weighted triangle: the weight-ignoring routines return non-trivial values *)
+Example C10_ignore_nonvacuous :
+  let W := of_rows 0 [[0; 3 # 8; 0]; [1; 0; 5 # 2]; [0; 0; 0]]%list in
+  let T := of_rows 0 [[0; 3 # 8; 5 # 2]; [3 # 8; 0; 1 # 8]; [5 # 2; 1 # 8; 0]]%list in
+  density_dir 3 W = (Some (3 / 6), 3%nat) /\ j_od (jdegree 3 W) = 1%Z /\ j_sz (jdegree 3 W) = 3%nat /\
+  (exists l, edge_nei_overlap_bu 3 T = Some l /\ length l = 6%nat /\ Forall (fun r => snd (fst r) == 1) l) /\
+  edge_nei_overlap_bd 2 (of_rows 0 [[0; 2]; [0; 0]]%list) = None.
+Proof.
+  cbv zeta. split; [vm_compute; reflexivity|]. split; [vm_compute; reflexivity|]. split; [vm_compute; reflexivity|].
+  split; [|vm_compute; reflexivity].
+  eexists. split; [vm_compute; reflexivity|]. split; [reflexivity|]. repeat constructor.
+Qed.
+
 Print Assumptions C10_cc_wu_bin_eq_bu.
 Print Assumptions C10_cc_wd_bin_eq_bd.
 Print Assumptions C10_trans_wu_bin_eq_bu.
@@ -179,4 +237,10 @@ Print Assumptions C10_efficiency_wei_bin_eq_bin.
 Print Assumptions C10_efficiency_local_wei_bin_eq_bin.
 Print Assumptions C10_efficiency_local_cbrt_exact.
 Print Assumptions C10_assortativity_wei_bin_eq_bin.
-Print Assumptions C10_assortativity_bin_ignores_weights.
+Print Assumptions C10_assortativity_bin_ignores_nonneg_weights.
+Print Assumptions C10_assortativity_bin_ignores_weights_refuted.
+Print Assumptions C10_density_ignores_weights.
+Print Assumptions C10_jdegree_ignores_weights.
+Print Assumptions C10_edge_nei_overlap_ignores_weights.
+Print Assumptions C10_findwalks_reachdist_ignore_weights.
+Print Assumptions C10_distance_efficiency_bin_ignore_weights.
